@@ -116,6 +116,13 @@ int main(int argc, char **argv) {
                     }
             }
             if ((fam & 4) && wide) {
+                // segment-count sweep: one density block of c clusters for every c in 1..400 (every residue of the segment count modulo
+                // 64 and 4096-related block sizes of the succinct structures)
+                for (long c0 = 1; c0 <= 400; c0 += 20) { Task t; t.cfg = c; t.kind = 6; t.word_lo = c0; t.word_hi = c0 + 20; tasks.push_back(t); }
+                // mega variant (one-level classes only): 150,000 clusters plus 15 far outliers: select structures get "long" blocks
+                if (e.eps <= 2 && e.eps_rec == 0 && (!strcmp(e.klass, "eliasfano") || !strcmp(e.klass, "pgm"))) { Task t; t.cfg = c; t.kind = 3; t.word_lo = 114; t.word_hi = 115; t.rep = 37500; t.n = 4; t.seam = 4; t.p = 1; tasks.push_back(t); }
+            }
+            if ((fam & 4) && wide) {
                 // skewed variants (a jump of 3x / 30x the span): 64 words each
                 for (long jump = 1; jump <= 3; ++jump) for (long w = 0; w < 256; w += 32) { Task t; t.cfg = c; t.kind = 3; t.word_lo = w; t.word_hi = w + 32; t.rep = 300; t.n = 4; t.seam = jump; tasks.push_back(t); }
                 // huge variant: more than 2^15 segments on the bottom level, so that the upper levels are built by the chunked builder
@@ -155,9 +162,14 @@ int main(int argc, char **argv) {
             }
         } else if (t.kind == 3) {
             for (long w = t.word_lo; w < t.word_hi && !run.deadline_passed(); ++w) {
-                if (t.seam > 0 && w % 4 != 0) continue;
+                if (t.seam > 0 && t.seam < 4 && w % 4 != 0) continue;
                 ks::FamilySpec s; s.kind = "density"; s.chunks = t.p; s.rep = t.rep; s.width = t.n; s.word = w; s.seam = t.seam;
                 if (w == t.word_lo + 3 && w % 64 == 3) run.sample(std::string("cfg=") + e.name + " family=" + s.str());
+                e.family(run, cn, prop, s);
+            }
+        } else if (t.kind == 6) {
+            for (long c = t.word_lo; c < t.word_hi && !run.deadline_passed(); ++c) {
+                ks::FamilySpec s; s.kind = "density"; s.chunks = 1; s.rep = c; s.width = 1; s.word = c % 4;
                 e.family(run, cn, prop, s);
             }
         } else if (t.kind == 5) {
